@@ -263,3 +263,117 @@ def replay_c05(path):
     bad = [looks_broken(o) for o in outs if looks_broken(o)]
     print(json.dumps(dict(program=d['program'], broken=bad[:3]), indent=1))
     return bool(bad)
+
+
+# ------------------------------------------------------------------------------------------ C18
+
+C18_SCOPED = ['for', 'forelse', 'forfilter', 'with', 'setblock', 'setblockf', 'filter', 'autoescape', 'if', 'ifelse']
+C18_LEAVES = ['emit', 'emitvar', 'set', 'setself', 'withself', 'ifbreak', 'setblockself', 'looplookup']
+
+
+def c18_reads(src):
+    return run_tool('reads', [dict(src=src, ctx=c) for c in contexts()])
+
+
+def run_c18(prop, tier, seed):
+    t0 = time.time()
+    ev = dict(engine='B', violations=[], known_hits=[], problems=[], coverage={})
+    err = build_native()
+    if err:
+        ev['problems'].append('engine B: native tools did not build: ' + err[-400:])
+        return ev
+    fam = G.family(2, leaves=C18_LEAVES, scoped=C18_SCOPED)
+    if tier == 'thorough':
+        fam += G.sample(G.family(3, leaves=C18_LEAVES, scoped=C18_SCOPED), 1500, seed)
+    else:
+        fam += G.sample(G.family(3, leaves=C18_LEAVES, scoped=C18_SCOPED), 150, seed)
+    for i, p in enumerate(fam):
+        p['id'] = i
+    dumps = {d['id']: d for d in run_tool('dump', [dict(id=p['id'], src=p['src']) for p in fam], timeout=1200)}
+    probe = run_tool('reads', [dict(src='x', ctx={})])[0]
+    env_globals = set(probe['globals'])
+    n_q = n_unsat = n_sat = n_skip = n_rej = 0
+    z3_s = 0.0
+    agg = {}
+    samples = []
+    os.makedirs(os.path.join(ROOT, 'evidence', 'replay'), exist_ok=True)
+    n_confirmed = 0
+    unconfirmed = []
+    for p in fam:
+        d = dumps.get(p['id'])
+        if d is None or 'error' in d:
+            n_rej += 1
+            continue
+        exempt = set(d['undeclared']) | env_globals | {'self'}
+        verdict, info, dt, stats = E.sym_unbound_reads(d['instrs'], exempt, unroll=2 if tier == 'quick' else 3)
+        z3_s += dt
+        for kk, vv in stats.items():
+            if isinstance(vv, int):
+                agg[kk] = agg.get(kk, 0) + vv
+        if verdict == 'skipped':
+            n_skip += 1
+            continue
+        n_q += 1
+        if verdict == 'unsat':
+            n_unsat += 1
+            if len(samples) < 4:
+                samples.append(dict(program=p['src'], reported=d['undeclared'], verdict='no path (all branch outcomes, loops unrolled) reads an unreported unbound name (unsat)', encoding=stats))
+        elif verdict == 'sat':
+            n_sat += 1
+            # replay: the recording context must show the read on the real engine
+            outs = c18_reads(p['src'])
+            hit = None
+            for ci, o in enumerate(outs):
+                extra = set(o['reads']) - set(o['undeclared']) - set(o['globals']) - {'self'}
+                if extra:
+                    hit = (ci, sorted(extra), o)
+                    break
+            if hit:
+                n_confirmed += 1
+                if len(ev['violations']) < 5:
+                    h = hashlib.sha1(p['src'].encode()).hexdigest()[:10]
+                    rp = os.path.join(ROOT, 'evidence', 'replay', '%s-B-%s.json' % (prop, h))
+                    json.dump(dict(property=prop, engine='B', program=p['src'], reported=d['undeclared'], bytecode_path=_js(info),
+                                   native=dict(context=contexts()[hit[0]], reads=hit[2]['reads'], unreported_reads=hit[1]),
+                                   how='bin/check %s --replay %s' % (prop, rp)), open(rp, 'w'), indent=1)
+                    ev['violations'].append(dict(replay=rp, failed=[dict(desc='render of %r looks up %s which undeclared_variables() = %s does not report' % (p['src'][:100], hit[1], d['undeclared']), loc='bytecode lookups %s' % (info.get('lookups') if isinstance(info, dict) else '?'))]))
+            else:
+                unconfirmed.append('engine B/C18: solver path reads an unreported name in %r but no native run shows the read' % p['src'][:90])
+        else:
+            ev['problems'].append('engine B/C18: z3 returned %s for %r' % (verdict, p['src'][:80]))
+        if len(ev['problems']) > 6:
+            break
+    if unconfirmed and not n_confirmed:
+        ev['problems'].extend(unconfirmed[:5])
+    # validation of the encoding on the unsat side: the real engine's recorded reads must be covered
+    rnd = random.Random(seed + 5)
+    val = rnd.sample(fam, min(len(fam), 100 if tier == 'quick' else 400))
+    disagreements = 0
+    for p in val:
+        d = dumps.get(p['id'])
+        if d is None or 'error' in d:
+            continue
+        for o in c18_reads(p['src'])[:6]:
+            extra = set(o['reads']) - set(o['undeclared']) - set(o['globals']) - {'self'}
+            if extra:
+                disagreements += 1
+    log('[%s] engine B: %d programs, %d BMC queries: unsat=%d sat=%d (confirmed natively %d), skipped=%d, z3 %.1fs' % (
+        prop, len(fam), n_q, n_unsat, n_sat, n_confirmed, n_skip, z3_s))
+    ev['coverage'] = dict(programs=n_q, queries=n_q, unsat=n_unsat, sat=n_sat, sat_confirmed_natively=n_confirmed,
+                          rejected_by_parser=n_rej, outside_fragment=n_skip, disagreements_checked=len(val),
+                          native_reads_not_covered=disagreements, z3_seconds=round(z3_s, 1), encoding_totals=agg,
+                          family='all chains of <=2 nested constructs from %s x leaves %s%s; every branch outcome symbolic, loops unrolled %d iterations' % (
+                              C18_SCOPED, C18_LEAVES, ' + seeded sample of depth-3 chains', 2 if tier == 'quick' else 3),
+                          samples=samples, wall_s=round(time.time() - t0, 1))
+    return ev
+
+
+def replay_c18(path):
+    d = json.load(open(path))
+    outs = c18_reads(d['program'])
+    for o in outs:
+        extra = set(o['reads']) - set(o['undeclared']) - set(o['globals']) - {'self'}
+        if extra:
+            print(json.dumps(dict(program=d['program'], unreported_reads=sorted(extra), undeclared=o['undeclared'])))
+            return True
+    return False
